@@ -81,7 +81,8 @@ type Plan struct {
 	Clients [][]Op    `json:"clients,omitempty"`
 	Sim     SimCfg    `json:"sim"`
 	// engine specific
-	X map[string]int `json:"x,omitempty"`
+	X  map[string]int    `json:"x,omitempty"`
+	XS map[string]string `json:"xs,omitempty"`
 	// steering rules (known findings) disabled for this run
 	NoSteer []string `json:"no_steer,omitempty"`
 }
